@@ -105,7 +105,7 @@ theorem reads_back_reader (x : Bits) (hx : isFinite x = true) (zx : isZero x = f
     (hin : InRound (F64.abs x) ((m : ℚ) * (10 : ℚ) ^ e))
     (hN3 : Num.inClassN3 t = false) (hlit : C03.expLit t < 10000) :
     C03.liftF (Num.readerAtof t) = .ok x := by
-  have h := C03.reader_atof_correct t hne hN3 hlit
+  have h := C03.reader_atof_correct t hne hN3 (Or.inl (by omega))
   rw [reads_back_spec x hx zx t m e hs hr hin] at h
   unfold Num.FloatRes.toExcept at h
   unfold C03.liftF
